@@ -8,7 +8,8 @@ primitive file operations and, for every crash index n = 0..len, the final-direc
 crash + restart are printed.  Test ops: `A:…` (allocate_buckets, as in ImmDrv), `W:wid:off:hex`,
 `C:wid`, `X:wid`, `AL:si:rechex:free:order` (StorageServer.add_lease over the listdir order),
 `RL:si:rechex:order` (StorageServer.renew_lease).
-Output: `ops=<op;op;…>|<dump n=0>|<dump n=1>|…` (dump = `F.si.sh=hex,…`).
+Output: `ops=<op;op;…>|<dump n=0>|<dump n=1>|…|T<n>.<j>=<dump>…` (dump = `F.si.sh=hex,…`; `T<n>.<j>`: the
+`n`-th primitive operation is a write torn after `j` bytes, for j = 1 and j = half of its length).
 -/
 namespace Tahoe.Storage.CrashDrv
 open Tahoe.Drv Tahoe.Storage.Imm Tahoe.Storage.Crash Tahoe.Storage.ImmDrv Tahoe.Base.FsOp
@@ -139,7 +140,15 @@ def handle : List String → String
           let keys := dedupKeys (s.final.map (·.1) ++ newKeys)
           let dumps := (List.range (ops.length + 1)).map (fun n =>
             dumpFin keys (restart (Tahoe.Base.FsOp.run fs0 (ops.take n))))
-          "ops=" ++ (if ops.isEmpty then "-" else ";".intercalate (ops.map showOp)) ++ "|" ++ "|".intercalate dumps
+          -- torn writes: every pwrite torn after 1 byte and after half of its bytes
+          let torn := (List.range ops.length).flatMap (fun n =>
+            match (ops[n]? : Option IOp) with
+            | some (FsOp.pwrite p off d) =>
+              let js := if d.length / 2 > 1 then [1, d.length / 2] else (if d.length ≥ 1 then [1] else [])
+              js.map (fun j => s!"T{n}.{j}=" ++
+                dumpFin keys (restart (Tahoe.Base.FsOp.run fs0 (ops.take n ++ tornOp j (FsOp.pwrite p off d)))))
+            | _ => [])
+          "ops=" ++ (if ops.isEmpty then "-" else ";".intercalate (ops.map showOp)) ++ "|" ++ "|".intercalate (dumps ++ torn)
     | _, _, _ => "bad-op"
   | _ => "bad-op"
 
